@@ -528,6 +528,7 @@ func main() {
 	translateElements(*repo, writeImp)
 	translateMsmChunk(*repo, writeImp)
 	translateSerde(*repo, writeImp)
+	translateRecode(*repo, writeImp)
 	fmt.Println("extract: ok")
 }
 
